@@ -139,7 +139,7 @@ Definition path_okb (t : ty) : bool :=
       match t_path t with
       | [] => false
       | [i] => existsb (String.eqb i) prelude_names
-      | p => forallb ident_lexb p
+      | p => forallb path_seg_okb p
       end
   | _ => true
   end.
